@@ -38,6 +38,8 @@ struct World<S: Service> {
     sub_labels: std::collections::HashSet<usize>,
     /// `override_sample_preallocation` of every publisher of this world (10th token of `new`)
     prealloc: Option<usize>,
+    /// op `bph`: publishers created afterwards get a backpressure handler that answers DiscardDataAndFail
+    bph: bool,
     // C04 (generator word `death`): further nodes that open the same service, node death and cleanup by a survivor
     config: iceoryx2::config::Config,
     name: ServiceName,
@@ -191,7 +193,7 @@ fn mk<S: Service>(t: &[&str]) -> Result<World<S>, String> {
         .create()
         .map_err(|e| format!("err:service:{e:?}"))?;
     let node_dir = format!("{}", node.id().value());
-    Ok(World { node: Some(node), service: Some(service), prefix, node_dir, pubs: HashMap::new(), subs: HashMap::new(), loans: HashMap::new(), samples: HashMap::new(), pub_ids: HashMap::new(), max_borrow: n(t[6]).max(1), pub_labels: Default::default(), sub_labels: Default::default(), prealloc: t.get(9).map(|x| n(x)),
+    Ok(World { node: Some(node), service: Some(service), prefix, node_dir, pubs: HashMap::new(), subs: HashMap::new(), loans: HashMap::new(), samples: HashMap::new(), pub_ids: HashMap::new(), max_borrow: n(t[6]).max(1), pub_labels: Default::default(), sub_labels: Default::default(), prealloc: t.get(9).map(|x| n(x)), bph: false,
         config, name, extra: Default::default(), extra_dirs: vec![], children: Default::default(), dead: Default::default(), pub_node: HashMap::new(), sub_node: HashMap::new() })
 }
 
@@ -381,7 +383,7 @@ fn child_main() -> ! {
         let node = NodeBuilder::new().config(&config).create::<S>().map_err(|e| format!("err:node:{e:?}"))?;
         let service = node.service_builder(&name).publish_subscribe::<u64>().open().map_err(|e| format!("err:open:{e:?}"))?;
         let node_dir = format!("{}", node.id().value());
-        Ok(World { node: Some(node), service: Some(service), prefix: prefix.clone(), node_dir, pubs: HashMap::new(), subs: HashMap::new(), loans: HashMap::new(), samples: HashMap::new(), pub_ids: HashMap::new(), max_borrow, pub_labels: Default::default(), sub_labels: Default::default(), prealloc: None,
+        Ok(World { node: Some(node), service: Some(service), prefix: prefix.clone(), node_dir, pubs: HashMap::new(), subs: HashMap::new(), loans: HashMap::new(), samples: HashMap::new(), pub_ids: HashMap::new(), max_borrow, pub_labels: Default::default(), sub_labels: Default::default(), prealloc: None, bph: false,
             config: config.clone(), name: name.clone(), extra: Default::default(), extra_dirs: vec![], children: Default::default(), dead: Default::default(), pub_node: HashMap::new(), sub_node: HashMap::new() })
     })();
     let mut w = match made {
@@ -451,6 +453,7 @@ fn exec<S: Service>(w: &mut World<S>, t: &[&str]) -> String {
         }
     }
     let r = match t[0] {
+        "bph" => { w.bph = true; "ok".into() }
         "spawn" => {
             // spawn <k>: a further node in a process of its own opens the service (ipc)
             let k = n(t[1]);
@@ -524,6 +527,7 @@ fn exec<S: Service>(w: &mut World<S>, t: &[&str]) -> String {
             if k != 0 { w.pub_node.insert(n(t[1]), k); }
             let mut b = svc.unwrap().publisher_builder().max_loaned_samples(n(t[2])).backpressure_strategy(BackpressureStrategy::DiscardData);
             if let Some(k) = w.prealloc { b = b.override_sample_preallocation(move |_| k); }
+            if w.bph { b = b.set_backpressure_handler(|_| iceoryx2::port::BackpressureAction::DiscardDataAndFail); }
             match b.create() {
                 Ok(p) => {
                     w.pub_ids.insert(p.id().value(), n(t[1]));
@@ -1068,6 +1072,17 @@ pub fn generate(a: &Args) -> Vec<Vec<String>> {
                     c[i] = format!("loanf {} {k}{mark}", &l[5..]);
                 }
             }
+        }
+        return cases;
+    }
+    if a.rest.iter().any(|x| x == "bph") && a.exhaustive == 0 {
+        // publishers with a backpressure handler that answers DiscardDataAndFail: a send that finds the buffer of a connected
+        // subscriber full (no safe overflow) skips that subscriber, delivers to the others and returns UnableToDeliver
+        let mut a2 = Args { mode: a.mode.clone(), seed: a.seed ^ 0x0b9, cases: a.cases, len: a.len, exhaustive: 0, rest: a.rest.iter().filter(|x| *x != "bph").cloned().collect() };
+        if !a2.rest.iter().any(|x| x == "sat") { a2.rest.push("sat".into()); }
+        let mut cases = generate(&a2);
+        for c in cases.iter_mut() {
+            if let Some(i) = c.iter().position(|l| l.starts_with("new ")) { c.insert(i + 1, "bph".into()); }
         }
         return cases;
     }
